@@ -157,7 +157,8 @@ def scenario(ctx):
 			omp.set_threads(ch.pick([2, 1, 3, 4, 7, 8, 16], L + '.threads'))
 		team = omp.get_max_threads()
 		strict = ch.flip(0.2, L + '.strict')
-		with simulated(ctx, knobs) as h:
+		from ..harness import knob_defaults
+		with simulated(ctx, knobs) as h, knob_defaults(ctx, ch, L):
 			db = ReferenceDatabase.load_from_dir(world.dir)
 			params = QueryParams(classify_strict=strict, chunksize=knobs.chunksize, report_closest=N)
 			results = query(db, queries, params)
@@ -205,12 +206,12 @@ def scenario(ctx):
 			out = os.path.join(ctx.scratch, f'cli.{fmt}')
 			cores = ch.pick([None, 1, 2, 5, 16], f'cli.{fmt}.cores')
 			args = ['-d', world.dir, 'query', '-o', out, '-f', fmt, '--no-progress', '-s', qpath] + ([] if cores is None else ['-c', str(cores)])
-			res, h = run_cli(ctx, args, knobs, chunk=True)
+			res, h = run_cli(ctx, args, knobs, chunk=True, ch=ch, label='cli.' + fmt)
 			ctx.stats['executions'] += 1
 			if res.status != 0:
 				ctx.violation('C09.length', f'CLI query -f {fmt} exited with status {res.status}', detail=repr(res.exc) + res.stderr[-300:])
 			outs[fmt] = open(out).read()
-			ctx.log('cli', fmt=fmt, cores=cores, chunk=knobs.chunksize, out=blob_hash(outs[fmt]))
+			ctx.log('cli', fmt=fmt, cores=cores, chunk=knobs.chunksize, out=blob_hash(outs[fmt]) if fmt == 'csv' else len(outs[fmt]) > 0)
 		jd = json.loads(outs['json'])
 		crow = list(csv.DictReader(io.StringIO(outs['csv'])))
 		desc_to_keys = {}
